@@ -3,9 +3,9 @@ package fastq
 // Bounded / replay harness of formats/fastq (see /verif/replay/README.md).
 // Injected with `go test -overlay`; not part of the repository.
 //
-// func (*Fastq).Write       -> clauses C02/roundtrip, C07/write-fault
-// func (*Fastq).MarshalText -> clause  C02/roundtrip
-// func Reader               -> clauses C02/roundtrip, C02/malformed, C06/chunking, C06/crlf,
+// func (*Fastq).Write       -> clauses C02/roundtrip, C02/marshal-list, C07/write-fault
+// func (*Fastq).MarshalText -> clauses C02/roundtrip, C02/marshal-list
+// func Reader               -> clauses C02/roundtrip, C02/malformed, C02/marshal-list, C06/chunking, C06/crlf,
 //                              C07/read-fault, C11/total, C18/stop
 // func File                 -> clauses C06/file, C18/stop
 //
@@ -663,6 +663,17 @@ var vfClauses = []vrClause{
 		Run: vfRunMalformed,
 	},
 	{
+		Prop: "C02", Name: "marshal-list",
+		Bound: "exhaustive: all ordered pairs of the 24 small records ('@'/'+' in every field position); all ordered pairs of marked records with the read lengths 0,1,2,3,7,40,41,100,255,256; " +
+			"the 10 marked records in increasing, decreasing and alternating length order (windows of 6); then random lists of 2..6 records of pairwise different sizes over all bytes of the domain until the budget ends",
+		Rule: "MarshalText is called on every record of the list first and the returned slices are kept untouched; afterwards each kept slice is byte-identical to what Write of that record puts into a fresh buffer " +
+			"(a result is not clobbered by later MarshalText/Write calls); Reader over the kept slices joined yields exactly the records in order; " +
+			"Write of all records into one shared buffer emits the concatenation of those bytes and reads back as the same list. " +
+			"Signature fastq:line-longer-than-65535 iff a read-back fails and some line of the text read is longer than 65535 bytes",
+		Gen: vfGenMarshalList,
+		Run: vfRunMarshalList,
+	},
+	{
 		Prop: "C06", Name: "chunking",
 		Bound: "exhaustive: all byte strings over {'@','+',LF,CR,'A'} of length <=4 (thorough <=5) x every partition into successive reads x EOF with/without the last data; " +
 			"all texts of <=4 lines from {'@a','','A','+','I'} (thorough <=5 lines, also 'AC','II') with chunk sizes [1],[2],[3],[1,2],[whole]; well-formed and malformed corpus incl. 20 KB and 70 KB inputs at sizes around the scanner buffer; then random",
@@ -977,6 +988,154 @@ func vfGenMalformed(g *vrGen) {
 			n := []int{1 + len(l[which].Name), len(l[which].Seq), 1, len(l[which].Quals)}[line]
 			emit(enc, which, "cut", map[string]any{"line": line, "pos": r.Intn(n + 1)})
 		}
+	}
+}
+
+// ---------------------------------------------------------------- C02/marshal-list
+
+func vfRunMarshalList(in map[string]any) vrResult {
+	recs := vfRecs(in["records"])
+	if !vfInDomain(recs) {
+		return vrResult{OK: true, Trivial: true, Observed: "outside the domain"}
+	}
+	fs := make([]*Fastq, len(recs))
+	for i, r := range recs {
+		fs[i] = &Fastq{Name: bytes.Clone(r.Name), Sequence: bytes.Clone(r.Seq), Quals: bytes.Clone(r.Quals)}
+	}
+	// 1. every MarshalText call first; the results are kept as returned (not
+	// copied, not touched between the calls).
+	kept := make([][]byte, len(fs))
+	for i, f := range fs {
+		var merr error
+		if p := vrCatch(func() { kept[i], merr = f.MarshalText() }); p != nil {
+			return vfFail(fmt.Sprintf("record %d: MarshalText panicked: %v", i, p), "no panic")
+		}
+		if merr != nil {
+			return vfFail(fmt.Sprintf("record %d: MarshalText returned %v", i, merr), "nil error")
+		}
+	}
+	// 2. only now the reference bytes: Write of each record into a fresh buffer
+	// (all of them before the first comparison).
+	refs := make([][]byte, len(fs))
+	for i, f := range fs {
+		var buf bytes.Buffer
+		var werr error
+		if p := vrCatch(func() { werr = f.Write(&buf) }); p != nil {
+			return vfFail(fmt.Sprintf("record %d: Write panicked: %v", i, p), "no panic")
+		}
+		if werr != nil {
+			return vfFail(fmt.Sprintf("record %d: Write to a bytes.Buffer returned %v", i, werr), "nil error")
+		}
+		refs[i] = buf.Bytes()
+	}
+	for i := range fs {
+		if !bytes.Equal(kept[i], refs[i]) {
+			return vfFail(fmt.Sprintf("record %d of %d: the slice MarshalText returned holds %s after the later calls, Write emits %s", i, len(fs), vfShort(kept[i]), vfShort(refs[i])),
+				"identical bytes (a MarshalText result is not changed by later MarshalText/Write calls)")
+		}
+	}
+	want := vfItemsOf(recs)
+	readBack := func(what string, text []byte) (vrResult, bool) {
+		sig := "generic"
+		if vfLongLine(text) {
+			sig = vfSigLong
+		}
+		got, bad := vfAll(Reader(bytes.NewReader(text)), len(recs)+10)
+		if bad != "" {
+			return vrResult{OK: false, Observed: what + ": " + bad + "; " + vfShow(got), Expected: "the records", Signature: sig}, false
+		}
+		if d := vfDiff(got, want); d != "" {
+			return vrResult{OK: false, Observed: what + ": " + d + "; " + vfShow(got), Expected: vfShow(want), Signature: sig}, false
+		}
+		return vrResult{}, true
+	}
+	// 3. the kept slices joined read back as the list.
+	if res, ok := readBack("joined MarshalText results", bytes.Join(kept, nil)); !ok {
+		return res
+	}
+	// 4. all records written one after another into one shared buffer.
+	var shared bytes.Buffer
+	for i, f := range fs {
+		var werr error
+		if p := vrCatch(func() { werr = f.Write(&shared) }); p != nil {
+			return vfFail(fmt.Sprintf("record %d: Write to the shared buffer panicked: %v", i, p), "no panic")
+		}
+		if werr != nil {
+			return vfFail(fmt.Sprintf("record %d: Write to the shared bytes.Buffer returned %v", i, werr), "nil error")
+		}
+	}
+	if !bytes.Equal(shared.Bytes(), bytes.Join(refs, nil)) {
+		return vfFail(fmt.Sprintf("sequential Write calls into one buffer emitted %s", vfShort(shared.Bytes())),
+			"the concatenation of what each Write emits into a fresh buffer: "+vfShort(bytes.Join(refs, nil)))
+	}
+	if res, ok := readBack("shared buffer", shared.Bytes()); !ok {
+		return res
+	}
+	return vrResult{OK: true, Trivial: len(recs) < 2}
+}
+
+var vfMarkLens = []int{0, 1, 2, 3, 7, 40, 41, 100, 255, 256}
+
+// vfMarkedRec: record number k of a list; the name starts with a byte that is
+// different for every k (so that the encodings differ from the second byte on)
+// and the read has the given length.
+func vfMarkedRec(k, n int) vfRec {
+	mark := byte('a' + k%26)
+	return vfRec{[]byte(fmt.Sprintf("%c%d", mark, n)), bytes.Repeat([]byte{"ACGTN"[k%5], mark}, (n+1)/2)[:n],
+		bytes.Repeat([]byte{"I#5~!"[k%5], mark}, (n+1)/2)[:n]}
+}
+
+func vfGenMarshalList(g *vrGen) {
+	complete := true
+	emit := func(l []vfRec) bool {
+		if g.Expired() {
+			complete = false
+			return false
+		}
+		g.Case(map[string]any{"records": vfRecsIn(l)})
+		return true
+	}
+	ok := true
+	// marked records of different lengths: shorter before longer and vice versa
+	for i, a := range vfMarkLens {
+		for j, b := range vfMarkLens {
+			ok = ok && emit([]vfRec{vfMarkedRec(i, a), vfMarkedRec(len(vfMarkLens)+j, b)})
+		}
+	}
+	var up, down, alt []vfRec
+	for i, n := range vfMarkLens {
+		up = append(up, vfMarkedRec(i, n))
+		down = append(down, vfMarkedRec(i, vfMarkLens[len(vfMarkLens)-1-i]))
+		if i%2 == 0 {
+			alt = append(alt, vfMarkedRec(i, vfMarkLens[len(vfMarkLens)-1-i/2]))
+		} else {
+			alt = append(alt, vfMarkedRec(i, vfMarkLens[i/2]))
+		}
+	}
+	for _, l := range [][]vfRec{up, down, alt} {
+		for i := 0; i+6 <= len(l); i++ {
+			ok = ok && emit(l[i:i+6])
+		}
+	}
+	ok = ok && vfLists(vfSmallRecs(), 2, 2, emit)
+	g.Exhaustive(complete && ok)
+	r := g.Rand
+	for rnd := (&vfRnd{g: g}); rnd.more(); {
+		l := make([]vfRec, 2+r.Intn(5))
+		sizes := map[int]bool{}
+		for i := range l {
+			for try := 0; ; try++ {
+				l[i] = vfRandRec(r)
+				if r.Intn(2) == 0 { // marker byte in front of the name
+					l[i].Name = append([]byte{byte('a' + i)}, l[i].Name...)
+				}
+				if sz := len(l[i].Name) + 2*len(l[i].Seq); !sizes[sz] || try >= 20 {
+					sizes[sz] = true
+					break
+				}
+			}
+		}
+		rnd.emit(map[string]any{"records": vfRecsIn(l)}, vfSize(l))
 	}
 }
 
